@@ -6,4 +6,6 @@ CONSTRAINT Bound
 INVARIANT StepIsTrackers
 INVARIANT IndInv
 INVARIANT WindowIsLastK
+INVARIANT ProofInvariant
+PROPERTY ProofIsAboutThisStep
 CHECK_DEADLOCK FALSE
